@@ -9,6 +9,7 @@ import (
 	"sort"
 	"strings"
 
+	"github.com/veraison/eat"
 	psatoken "github.com/veraison/psatoken"
 	"github.com/veraison/psatoken/zzverif/simrt"
 )
@@ -29,15 +30,28 @@ type regWorld struct{}
 func (regWorld) Name() string { return "W-REG" }
 
 var regNamePool = []string{"http://sim.example/psa/a", "http://sim.example/psa/b", "http://sim.example/psa/c", "urn:sim:psa:d",
-	"http://sim.example/psa/e", "https://sim.example/f", "http://sim.example/psa/g", "http://sim.example/h"}
+	"http://sim.example/psa/e", "https://sim.example/f", "http://sim.example/psa/g", "http://sim.example/h",
+	"ACME_IOT_PROFILE_7", "sim profile 8"}
 
 const unknownName = "http://unknown.example/never-registered"
 
-var regKinds = []string{"xp2", "xp1", "own", "xp2", "xp1", "own", "noprof", "notag"}
+var regKinds = []string{"xp2", "xp1", "own", "opt", "two", "str", "xp2", "xp1", "own", "opt", "two", "str", "noprof", "notag"}
+
+// kinds whose claims carry an eat.Profile, i.e. whose name must be a URI or an OID
+var kindNeedsURI = map[string]bool{"xp2": true, "own": true, "opt": true, "two": true}
+
+func isURIName(n string) bool {
+	p := eat.Profile{}
+	return p.Set(n) == nil
+}
+
+func goodKind(k string) bool {
+	return k == "xp1" || k == "xp2" || k == "own" || k == "opt" || k == "two" || k == "str"
+}
 
 var kindType = map[string]string{"p1": "*psatoken.P1Claims", "p2": "*psatoken.P2Claims", "xp1": "*main.XP1Claims",
-	"xp2": "*main.XP2Claims", "own": "*main.XOwnClaims"}
-var kindTag = map[string]string{"p1": "psa-profile", "p2": "eat-profile", "xp1": "psa-profile", "xp2": "eat-profile", "own": "own-profile"}
+	"xp2": "*main.XP2Claims", "own": "*main.XOwnClaims", "opt": "*main.XOptClaims", "two": "*main.XTwoClaims", "str": "*main.XStrClaims"}
+var kindTag = map[string]string{"p1": "psa-profile", "p2": "eat-profile", "xp1": "psa-profile", "xp2": "eat-profile", "own": "own-profile", "opt": "opt-profile", "two": "eat-profile", "str": "str-profile"}
 
 func profileOfKind(kind, name string) psatoken.IProfile {
 	switch kind {
@@ -47,6 +61,12 @@ func profileOfKind(kind, name string) psatoken.IProfile {
 		return XP1Profile{name}
 	case "own":
 		return XOwnProfile{name}
+	case "opt":
+		return XOptProfile{name}
+	case "two":
+		return XTwoProfile{name}
+	case "str":
+		return XStrProfile{name}
 	case "noprof":
 		return NoProfProfile{name}
 	case "notag":
@@ -59,7 +79,7 @@ func profileOfKind(kind, name string) psatoken.IProfile {
 	return nil
 }
 
-const nMutations = 15
+const nMutations = 16
 
 func (regWorld) Gen(prop, tier string, idx int, r *Rng) *Trace {
 	nNames := r.Range(1, 8)
@@ -213,9 +233,28 @@ func buildRegProbes(names []string) []regProbe {
 		add(regProbe{name: "cbor/-75000=" + n, ser: "cbor", doc: enc(d1, false), declares: []string{n}})
 		add(regProbe{name: "json/eat-profile=" + n, ser: "json", doc: enc(d2, true), declares: []string{n}, members: map[string]string{"eat-profile": n}})
 		add(regProbe{name: "json/psa-profile=" + n, ser: "json", doc: enc(d1, true), declares: []string{n}, members: map[string]string{"psa-profile": n}})
+		// profile-1 shaped body announcing n as plain text under key 265 / member str-profile
+		dn := *p1
+		dn.ProfClaim = nil
+		if c := enc(dn, false); c != nil {
+			if h, err := readHead(c, 0); err == nil && h.Major == 5 && h.Info != 31 {
+				nb := append([]byte{}, encodeHead(5, h.Arg+1)...)
+				nb = append(nb, c[h.HLen:]...)
+				nb = append(nb, 0x19, 0x01, 0x09)
+				nb = append(nb, encodeHead(3, uint64(len(n)))...)
+				nb = append(nb, n...)
+				add(regProbe{name: "cbor/p1 body+265=" + n, ser: "cbor", doc: nb, declares: []string{n}, c265: &n})
+			}
+		}
+		if j := enc(dn, true); j != nil {
+			add(regProbe{name: "json/str-profile=" + n, ser: "json", doc: jsonEdit(jsonEdit(j, "psa-profile", "", true), "str-profile", quote(n), false), declares: []string{n},
+				members: map[string]string{"str-profile": n}})
+		}
 		if j := enc(d2, true); j != nil {
 			add(regProbe{name: "json/own-profile=" + n, ser: "json", doc: jsonEdit(j, "own-profile", quote(n), false), declares: []string{n},
 				members: map[string]string{"eat-profile": n, "own-profile": n}})
+			add(regProbe{name: "json/opt-profile=" + n, ser: "json", doc: jsonEdit(j, "opt-profile", quote(n), false), declares: []string{n},
+				members: map[string]string{"eat-profile": n, "opt-profile": n}})
 		}
 	}
 	// no profile at all
@@ -408,6 +447,38 @@ func mutateInstance(c psatoken.IClaims, code int, salt int) {
 		}
 	case 14:
 		_ = c.SetSoftwareComponents(swToIface([]SwDesc{{MVal: hp(rb(32)), Signer: hp(rb(48))}, {MVal: hp(rb(5))}}))
+	case 15:
+		// the caller edits the profile object of ITS instance in place (exported field)
+		editP2 := func(p *psatoken.P2Claims) {
+			if p.Profile != nil {
+				_ = p.Profile.Set(fmt.Sprintf("http://edited.example/%d", salt))
+			}
+		}
+		editP1 := func(p *psatoken.P1Claims) {
+			if p.Profile != nil {
+				*p.Profile = fmt.Sprintf("EDITED_%d", salt)
+			}
+		}
+		switch x := c.(type) {
+		case *psatoken.P2Claims:
+			editP2(x)
+		case *XP2Claims:
+			editP2(&x.P2Claims)
+		case *XOwnClaims:
+			editP2(&x.P2Claims)
+		case *XOptClaims:
+			editP2(&x.P2Claims)
+		case *XTwoClaims:
+			editP2(&x.P2Claims)
+		case *psatoken.P1Claims:
+			editP1(x)
+		case *XP1Claims:
+			editP1(&x.P1Claims)
+		case *XStrClaims:
+			if x.EatProfile != nil {
+				*x.EatProfile = "EDITED"
+			}
+		}
 	}
 }
 
@@ -454,7 +525,10 @@ func (regWorld) Exec(prop string, t *Trace) *Result {
 		}
 		return out
 	}
-	declares := func(i int, name string) bool {
+	// Does lookup i declare the profile being registered? Besides naming it, a
+	// JSON document carrying the profile MEMBER NAME that the new profile
+	// introduces starts to be a document that declares a profile at all.
+	declares := func(i int, name string, kind string) bool {
 		if i >= len(probes) {
 			return allNames[i-len(probes)] == name
 		}
@@ -462,6 +536,9 @@ func (regWorld) Exec(prop string, t *Trace) *Result {
 			if d == name {
 				return true
 			}
+		}
+		if _, ok := probes[i].members[kindTag[kind]]; ok && probes[i].ser == "json" {
+			return true
 		}
 		return false
 	}
@@ -488,7 +565,16 @@ func (regWorld) Exec(prop string, t *Trace) *Result {
 		}
 		names := map[string]bool{}
 		nonString := false
-		for _, v := range p.members {
+		// a member is a profile declaration only if some registered profile uses
+		// that member name; otherwise it is just an unknown extra member
+		known := map[string]bool{}
+		for _, k := range model {
+			known[kindTag[k]] = true
+		}
+		for tag, v := range p.members {
+			if !known[tag] {
+				continue
+			}
 			if v == "\x00nonstring" {
 				nonString = true
 			} else {
@@ -519,14 +605,14 @@ func (regWorld) Exec(prop string, t *Trace) *Result {
 		return "", false, false
 	}
 	nameOfKind := func(p *regProbe, kind string) string {
-		if kind == "p1" && (p.ser == "cbor" && p.c265 == nil || p.ser == "json" && len(p.members) == 0) {
+		if p.ser == "cbor" {
+			if p.c265 != nil {
+				return *p.c265
+			}
 			return psatoken.Profile1Name
 		}
-		if p.ser == "cbor" && p.c265 != nil {
-			return *p.c265
-		}
-		for _, v := range p.members {
-			if v != "\x00nonstring" {
+		if v, ok := p.members[kindTag[kind]]; ok && v != "\x00nonstring" {
+			if k, reg := model[v]; reg && k == kind {
 				return v
 			}
 		}
@@ -629,6 +715,10 @@ func (regWorld) Exec(prop string, t *Trace) *Result {
 				sort.Strings(names)
 				name = names[op.A%len(names)]
 			}
+			if kindNeedsURI[kind] && !isURIName(name) {
+				// such a profile cannot even build its claims; not a registration the property speaks about
+				break
+			}
 			prof := profileOfKind(kind, name)
 			if prof == nil || name == "" {
 				break
@@ -645,7 +735,7 @@ func (regWorld) Exec(prop string, t *Trace) *Result {
 			}()
 			after := snapshot()
 			_, exists := model[name]
-			wantOK := !exists && (kind == "xp1" || kind == "xp2" || kind == "own")
+			wantOK := !exists && goodKind(kind)
 			res.Evals++
 			res.logf("%d register %q kind=%s err=%s", i, name, kind, okOrErr(err))
 			shape += "R" + kind + okOrErr(err)
@@ -675,14 +765,14 @@ func (regWorld) Exec(prop string, t *Trace) *Result {
 				okReg++
 				if c16 {
 					for j := range before {
-						if before[j] != after[j] && !declares(j, name) {
+						if before[j] != after[j] && !declares(j, name, kind) {
 							res.violate("C16", "registration-changed-unrelated-lookup", "", i, "registering %q changed the outcome of %s, which does not declare it:\n before: %s\n after:  %s", name, label(j), before[j], after[j])
 							break
 						}
 					}
 				}
 				if !exists {
-					if kind == "xp1" || kind == "xp2" || kind == "own" {
+					if goodKind(kind) {
 						model[name] = kind
 					} else {
 						// the library accepted a profile the model says it must refuse: keep dispatching
